@@ -14,7 +14,7 @@
      paint tr t a    nearest-mutation rule
    Non-vacuity examples: C20/Examples.v. *)
 From Coq Require Import List ZArith NArith Bool.
-From TskVerif Require Import Base.Common C20.Model C20.Spec C20.HartiganProofs C20.TopProofs
+From TskVerif Require Import Base.Common Gen.Generated C20.Model C20.Spec C20.HartiganProofs C20.TopProofs
   C20.BoundProofs C20.StackProofs C20.FixProofs C20.Refuted C20.Examples.
 Import ListNotations.
 
@@ -138,3 +138,33 @@ Theorem mm_fixed_reproduces : forall (K : nat) (roots : list tree) (anc : option
   mm_rose_fixed K roots anc = Some (a, tr) ->
   consistent_list roots (map (fun r => paint tr r a) roots) = true.
 Proof. exact mm_fixed_reproduces_lemma. Qed.
+
+(* The same three statements for [mm_model], the variant of the algorithm the code under
+   test has: [c20_missing_through_hartigan] is re-extracted from trees.c on every run
+   (false on the pinned commit; true once the repair of F2 is applied), so the proviso
+   disappears by itself when the code is repaired. *)
+Theorem mm_current_optimal : forall (K : nat) (roots : list tree) (anc : option N) (a : N) (tr : list trans),
+  (1 <= K <= 64)%nat -> forallb (obs_lt K) roots = true ->
+  (c20_missing_through_hartigan = true \/ forallb no_internal_missing roots = true) ->
+  match anc with Some x => (x < N.of_nat K)%N | None => True end ->
+  mm_model K roots anc = Some (a, tr) ->
+  (forall a' ls, match anc with Some x => a' = x | None => True end ->
+      consistent_list roots ls = true -> (length tr <= forest_changes a' ls)%nat) /\
+  (exists ls, consistent_list roots ls = true /\ forest_changes a ls = length tr).
+Proof. exact mm_current_optimal_lemma. Qed.
+
+Theorem mm_current_oldest_on_unary_chain :
+  forall (K : nat) (roots : list tree) (anc : option N) (a : N) (tr : list trans),
+  (1 <= K <= 64)%nat -> forallb (obs_lt K) roots = true ->
+  (c20_missing_through_hartigan = true \/ forallb no_internal_missing roots = true) ->
+  match anc with Some x => (x < N.of_nat K)%N | None => True end ->
+  nodupb (forest_ids roots) = true ->
+  mm_model K roots anc = Some (a, tr) ->
+  forallb (unary_ok false tr) roots = true.
+Proof. exact mm_current_oldest_lemma. Qed.
+
+Theorem mm_current_reproduces : forall (K : nat) (roots : list tree) (anc : option N) (a : N) (tr : list trans),
+  nodupb (forest_ids roots) = true ->
+  mm_model K roots anc = Some (a, tr) ->
+  consistent_list roots (map (fun r => paint tr r a) roots) = true.
+Proof. exact mm_current_reproduces_lemma. Qed.
